@@ -261,6 +261,31 @@ namespace {
       for (Map<String, String>::Iterator i = environment.begin(), end = environment.end(); i != end; ++i)
         envStringsBuf.append(i.key() + "=" + *i);
   }
+
+  // Process uses descriptor 0 for "not open": a pipe end must never be descriptor 0
+  // (pipe() hands it out when the standard input of the calling process is closed)
+  int createPipe(int fds[2])
+  {
+    if (pipe(fds) != 0)
+      return -1;
+    for (int i = 0; i < 2; ++i)
+      if (fds[i] == 0)
+      {
+        int fd = fcntl(0, F_DUPFD, 3);
+        if (fd == -1)
+        {
+          int err = errno;
+          ::close(fds[0]);
+          ::close(fds[1]);
+          fds[0] = fds[1] = 0;
+          errno = err;
+          return -1;
+        }
+        ::close(0);
+        fds[i] = fd;
+      }
+    return 0;
+  }
 }
 #endif
 
@@ -615,17 +640,17 @@ bool Process::open(const String& executable, int argc, char* const argv[], uint 
   int stdinFds[2] = {};
   if (streams & stdoutStream)
   {
-    if (pipe(stdoutFds) != 0)
+    if (createPipe(stdoutFds) != 0)
       goto error;
   }
   if (streams & stderrStream)
   {
-    if (pipe(stderrFds) != 0)
+    if (createPipe(stderrFds) != 0)
       goto error;
   }
   if (streams & stdinStream)
   {
-    if (pipe(stdinFds) != 0)
+    if (createPipe(stdinFds) != 0)
       goto error;
   }
 
